@@ -9,6 +9,7 @@ import (
 	"verifharness/core"
 	"verifharness/gen"
 	"verifharness/mon"
+	"verifharness/sched"
 )
 
 func init() {
@@ -20,7 +21,9 @@ type c01Case struct {
 	Pre    gen.BinStr `json:"pre"`
 	Chunk  int        `json:"chunk"`
 	Naming bool       `json:"naming"`
-	Input  []byte     `json:"input"`
+	// EOFWithData: the reader returns io.EOF together with the last bytes.
+	EOFWithData bool   `json:"eof_with_data,omitempty"`
+	Input       []byte `json:"input"`
 }
 
 func c01Eval(r *core.Run, c *c01Case) {
@@ -30,7 +33,7 @@ func c01Eval(r *core.Run, c *c01Case) {
 	if c.Naming {
 		opts = namingOpts()
 	}
-	res := scanOnce(in, opts, nil, c.Chunk)
+	res := scanOnceSrc(&sched.Scripted{Data: in, Rest: c.Chunk, FinalWithData: c.EOFWithData}, opts)
 	r.Eval(1)
 	report := func(key, what string) {
 		c2 := *c
@@ -95,6 +98,10 @@ func runC01(r *core.Run) {
 			c.Chunk = 1 + rr.Intn(300)
 		case 2:
 			c.Chunk = 16384
+		case 3:
+			c.EOFWithData = true
+		case 4:
+			c.EOFWithData, c.Chunk = true, 1+rr.Intn(300)
 		}
 		c01Eval(r, c)
 		nontrivial := len(d.Gs) >= 2 || cfg.LongLines
